@@ -77,10 +77,40 @@ def build(c):
     return atoms
 
 
+def mk_verlet(c, dt, n, cls=None):
+    """the integrator, either built with its settings or (late) built with OTHER settings and re-tuned through its public attributes"""
+    from ase.units import fs
+    cls = cls or Verlet
+    if c.get("late"):
+        v = cls(dt=dt * 2.0 + 0.25, max_steps=n + 2)
+        v.dt = dt * fs
+        v.max_steps = n
+        return v
+    return cls(dt=dt, max_steps=n)
+
+
+def mk_move(c, on_fresh):
+    """shipped_dist: the SHIPPED distribution function itself is the move's distribution (forced variant through functools.partial); the freshly
+    drawn momenta are observed at the entry of the integrator instead"""
+    if not c.get("shipped_dist"):
+        def dist(context):
+            maxwell_boltzmann_distribution(context, forced=c.get("forced", False))
+            on_fresh(context)
+        return HamiltonianDisplacementMove(distribution=dist, operation=mk_verlet(c, c["dt"], c["n"]))
+    from functools import partial
+
+    class SpyVerlet(Verlet):
+        def integrate(self, context):
+            on_fresh(context)
+            super().integrate(context)
+    dist = partial(maxwell_boltzmann_distribution, forced=True) if c.get("forced") else maxwell_boltzmann_distribution
+    return HamiltonianDisplacementMove(distribution=dist, operation=mk_verlet(c, c["dt"], c["n"], SpyVerlet))
+
+
 def verlet_case(c):
     atoms = build(c)
     ctx = HamiltonianDisplacementContext(atoms, np.random.default_rng(1))
-    v = Verlet(dt=c["dt"], max_steps=c["n"])
+    v = mk_verlet(c, c["dt"], c["n"])
     if c.get("warm"):
         # the same integrator object is first used on ANOTHER system of the same size (other masses, other anchors)
         other = build(c)
@@ -98,7 +128,7 @@ def verlet_case(c):
     for div in (1, 2, 4):
         a = build(c)
         cx = HamiltonianDisplacementContext(a, np.random.default_rng(1))
-        vv = Verlet(dt=c["dt"] / div, max_steps=1)
+        vv = mk_verlet(c, c["dt"] / div, 1)
         if c.get("warm"):
             other = build(c)
             other.set_masses(fh(c["masses"])[::-1] * 3.5 + 1.0)
@@ -138,11 +168,7 @@ def fresh_case(c):
     atoms = build(c)
     snaps, seen = [], []
 
-    def dist(context):
-        maxwell_boltzmann_distribution(context, forced=c.get("forced", False))
-        snaps.append({"ke": float(context.atoms.get_kinetic_energy()).hex(), "p": hx(context.atoms.get_momenta())})
-
-    move = HamiltonianDisplacementMove(distribution=dist, operation=Verlet(dt=c["dt"], max_steps=c["n"]))
+    move = mk_move(c, lambda context: snaps.append({"ke": float(context.atoms.get_kinetic_energy()).hex(), "p": hx(context.atoms.get_momenta())}))
     vetoes = list(c["vetoes"])
 
     def check(*a, **k):
@@ -182,11 +208,7 @@ def ctx_case(c):
     ctx.temperature = c["T"]
     snaps = []
 
-    def dist(context):
-        maxwell_boltzmann_distribution(context, forced=c.get("forced", False))
-        snaps.append(float(context.atoms.get_kinetic_energy()).hex())
-
-    move = HamiltonianDisplacementMove(distribution=dist, operation=Verlet(dt=c["dt"], max_steps=c["n"]))
+    move = mk_move(c, lambda context: snaps.append(float(context.atoms.get_kinetic_energy()).hex()))
     vetoes = list(c["vetoes"])
     move.check_move = lambda *a, **k: not (vetoes.pop(0) if vetoes else False)
     move.max_attempts = c.get("max_attempts", 3)
